@@ -314,6 +314,74 @@ func c13Judge(sc c13Script, out vsched.Outcome, env *c13Env, mock *mockSearch, s
 	if !sc.Real && mock.n != gos {
 		return fmt.Sprintf("%d go commands, %d searches started", gos, mock.n)
 	}
+	if !sc.Real {
+		if msg := c13TimeUseSites(sc, env, mock, s); msg != "" {
+			return msg
+		}
+	}
+	return ""
+}
+
+// c13TimeUseSites (C14 at its use sites): the soft target handed to the search and the duration the hard
+// timer is armed with must be exactly what the driver's limit computation yields for the clock in the go line.
+func c13TimeUseSites(sc c13Script, env *c13Env, mock *mockSearch, s *vsched.Sched) string {
+	g := 0
+	var wantTimers []time.Duration
+	maxTimers := 0
+	for _, ln := range sc.Lines[:env.next] {
+		f := strings.Fields(ln)
+		if len(f) == 0 || f[0] != "go" {
+			continue
+		}
+		var tc [5]int64 // wtime btime winc binc movetime
+		ponder := false
+		for i, w := range f {
+			for k, name := range []string{"wtime", "btime", "winc", "binc", "movetime"} {
+				if w == name && i+1 < len(f) {
+					fmt.Sscan(f[i+1], &tc[k])
+				}
+			}
+			if w == "ponder" {
+				ponder = true
+			}
+		}
+		soft, hard, timed := uci.VerifLimits(tc[0], tc[1], tc[2], tc[3], tc[4], White)
+		if g < len(mock.softSeen) {
+			want := int64(0)
+			if timed {
+				want = soft
+			}
+			if mock.softSeen[g] != want {
+				return fmt.Sprintf("search %d (%q) was given soft time %d, the limit computation yields %d", g, ln, mock.softSeen[g], want)
+			}
+		}
+		if timed {
+			maxTimers++
+			if !ponder {
+				wantTimers = append(wantTimers, time.Duration(hard)*time.Millisecond)
+			} else {
+				wantTimers = append(wantTimers, -time.Duration(hard)*time.Millisecond) // optional: armed only after a ponderhit
+			}
+		}
+		g++
+	}
+	got := s.TimerDurations()
+	gi := 0
+	for _, w := range wantTimers {
+		if w < 0 {
+			if gi < len(got) && got[gi] == -w {
+				gi++
+			}
+			continue
+		}
+		if gi >= len(got) || got[gi] != w {
+			return fmt.Sprintf("hard timers armed with %v, the limit computation yields %v", got, wantTimers)
+		}
+		gi++
+	}
+	if gi != len(got) {
+		return fmt.Sprintf("hard timers armed with %v, expected (optional ones negative) %v", got, wantTimers)
+	}
 	return ""
 }
 
